@@ -845,6 +845,13 @@ func (k *kernel) drive() error {
 	return nil
 }
 
+func maxSteps(sc Scenario) int {
+	if sc.MaxSteps <= 0 {
+		return 400
+	}
+	return sc.MaxSteps
+}
+
 func runKernelScenario(sc Scenario, out *bufio.Writer) {
 	s := newSched(sc.ID, out)
 	k := &kernel{sc: sc, s: s, rng: rand.New(rand.NewSource(sc.Seed)), cfgIDs: map[*HCfg]int{},
@@ -958,7 +965,21 @@ func runKernelScenario(sc Scenario, out *bufio.Writer) {
 		}
 	}
 	drained := gated && len(k.cbq) == 0 && allDone && (s.At("cb") == "cb.idle" || s.done["cb"]) && (s.At("mon") == "mon.select" || k.monExited)
+	// a reporter that cannot finish although nothing was cancelled and the monitor is alive: the monitor stopped serving its
+	// sources (reports never wait for callbacks; a blocked callback may only hold up register / unregister calls)
+	var stalled []string
+	if gated && derr == nil && !k.monExited && !k.ctxDone && k.steps < 4*maxSteps(sc) {
+		for _, pn := range procs {
+			if strings.HasPrefix(pn, "r") && !s.done[pn] && !k.cancelled[pn] {
+				stalled = append(stalled, pn+" at "+s.At(pn))
+			}
+		}
+	}
+	monAt := s.At("mon")
 	s.mu.Unlock()
+	if len(stalled) > 0 {
+		s.anomaly("stall", fmt.Sprintf("no move is enabled, the monitor is alive (at %q) and nothing was cancelled, but reporters cannot finish: %v", monAt, stalled))
+	}
 	s.Note("env", "quiesce", "drained", drained, "procsdone", allDone)
 
 	// teardown: cancel everything, open the gates, everything must exit
